@@ -24,7 +24,7 @@ Ops == {"DBWrite", "DBWriteCkpt", "DBTruncate", "DBRemove", "DBRemoveRace", "JCr
 VARIABLES mode,      \* journal mode of the database
           ps,        \* pager protocol state of the application's connection
           walc,      \* the WAL holds committed, captured frames that are not checkpointed yet
-          role,      \* "primary" | "demoted" | "replica" | "holder" (replica holding the halt lock) | "exholder"
+          role,      \* "primary" | "demoted" | "replica" | "holder" (replica holding the halt lock) | "exholder" | "exholder_rl" | "exholder_af"
                      \* | "destroying": a demoted node at the very moment the lease service sees its lease go
                      \*   away (from then on another node may be primary): the node has stopped acting as primary
                      \*   BEFORE it gives the lease up, so this is a state without authority like "demoted"
@@ -93,10 +93,20 @@ LoseHalt ==
 \* whatever becomes of the request.
 ReleaseLost ==
   /\ role = "holder" /\ ~exited /\ ps = "idle"
-  /\ role' = "exholder"
+  /\ role' = "exholder_rl"   \* (a value of its own so that the state, and with it every edge out of it, is explored in its own right)
   /\ UNCHANGED <<mode, ps, walc, img, pos, logn, exited>>
   /\ last' = [op |-> "releaselost", res |-> "none"]
   /\ H("releaselost")
+
+\* A replica asks for the halt lock, the primary grants it, but the replica does not reach the lock's position
+\* within its time limit (it lags): the acquisition fails, the replica gives the lock back. It never was the
+\* holder as far as its applications are concerned, and it is not one now.
+AcquireFails ==
+  /\ role = "replica" /\ ~exited /\ ps = "idle"
+  /\ role' = "exholder_af"
+  /\ UNCHANGED <<mode, ps, walc, img, pos, logn, exited>>
+  /\ last' = [op |-> "acquirefailed", res |-> "none"]
+  /\ H("acquirefailed")
 
 (* ---- LiteFS's reaction to an operation on a node without authority (guard table) ---- *)
 \* "eacces": refused with the read-only permission error; "refused": refused with another error;
@@ -142,7 +152,7 @@ Attempt(op) ==
      /\ UNCHANGED <<mode, ps, role, pos, logn>>
      /\ H(op)
 
-Next == \/ Advance \/ LoseAuthority \/ AcquireHalt \/ LoseHalt \/ ReleaseLost
+Next == \/ Advance \/ LoseAuthority \/ AcquireHalt \/ LoseHalt \/ ReleaseLost \/ AcquireFails
         \/ \E op \in Ops : /\ Attempt(op)
                             /\ (Emit => PrintT("EDGE " \o ToJson([mode |-> mode, ps |-> ps, walc |-> walc, role |-> role,
                                                                   path |-> hist, op |-> op, res |-> last'.res])))
